@@ -376,6 +376,9 @@ class FaultEngine(Engine):
         out.append(dict(base, fault=['inc.gin', 2, kind, 0]))
         out.append(dict(base, fault=['main.gin', 3, kind, 0]))
     out.append(dict(base, fault=None))
+    # F11 seen through provenance (known finding F11b): the same binding made twice, the second time in a block with a faulty member
+    out.append({'as_string': False, 'entry': 'main.gin', 'fault': ['main.gin', 1, 'bad-block-member', 1], 'seed': 287748,
+                'files': {'main.gin': [['block', 's2/s1', 'x.h', [['a', '1.5']]], ['block', 's2/s1', 'x.h', [['a', '1.5']]]]}})
     # imports that have taken effect before the fault (in the failing file itself, and in the file including it):
     # they stay recorded after the failed parse
     imp = {'files': {'main.gin': [['import', 'other'], ['bind', '', 'f', 'a', '1'], ['include', 'inc.gin'], ['bind', '', 'f', 'c', '3']],
